@@ -37,6 +37,7 @@ func driveToEnd(t *fw.T, name string, in *parse.Input, step stepFn, backing []by
 	sticky := 0
 	var stickyErr string
 	reached := false
+	eofSeen, eofAt := false, 0
 	// H1: every *parse.Error is built from an offset inside the input
 	badOffset := ""
 	parse.VerifOnNewError = func(off int, msg string) {
@@ -71,6 +72,14 @@ func driveToEnd(t *fw.T, name string, in *parse.Input, step stepFn, backing []by
 		}
 		if err != nil {
 			_ = err.Error() // building the message must not panic either
+		}
+		// once the end of the input has been reported (an error result whose Err() is io.EOF) every further call reports it again
+		if eofSeen && !(isErr && err == io.EOF) {
+			t.Failf("%s: the end of the input was reported at call %d (Err() == io.EOF), call %d reports something else (error result: %v, Err(): %v)", name, eofAt, calls, isErr, err)
+			return calls
+		}
+		if isErr && err == io.EOF && !eofSeen {
+			eofSeen, eofAt = true, calls
 		}
 		if isErr && after == before && err != nil {
 			es := err.Error()
